@@ -366,3 +366,41 @@ Proof.
   - inversion E; subst. right. replace (off + (i_numel p + total_numel pre)) with ((off + i_numel p) + total_numel pre) by lia.
     eapply IH. reflexivity.
 Qed.
+
+(* ---- a capacity at least as large as everything that is ever added behaves like any other such capacity
+   (the OCaml driver clamps the capacity to total bytes + 1 before converting it to a unary natural) ---- *)
+Definition ops_bytes (ops : list bop) : nat :=
+  fold_right (fun o acc => match o with Add _ it => i_bytes it + acc | Flush => acc end) 0 ops.
+
+Lemma cur_setb s k b k2 : cur (setb s k (Some b)) k2 = if Nat.eqb k k2 then b else cur s k2.
+Proof.
+  unfold cur. destruct (Nat.eqb_spec k k2) as [->|Hne].
+  - now rewrite getb_setb_same.
+  - rewrite getb_setb_other by congruence. reflexivity.
+Qed.
+
+Lemma getb_flush s k : getb (map (fun kb : nat * option bucket => (fst kb, @None bucket)) s) k = None.
+Proof. induction s as [|[k' ob] t IH]; simpl; [reflexivity|]. destruct (Nat.eqb k' k); [reflexivity|exact IH]. Qed.
+
+Lemma brun_cap_irrelevant_l cap cap2 ops : forall s B,
+  (forall k, bsize (cur s k) <= B) -> B + ops_bytes ops <= cap -> B + ops_bytes ops <= cap2 ->
+  brun cap s ops = brun cap2 s ops.
+Proof.
+  induction ops as [|o t IH]; intros s B Hs H1 H2; [reflexivity|].
+  cbn [brun]. destruct o as [g it|].
+  - cbn [ops_bytes fold_right] in H1, H2. fold (ops_bytes t) in H1, H2.
+    cbn [bstep]. destruct (Nat.eqb g 1).
+    + rewrite (IH s B Hs) by lia. reflexivity.
+    + pose proof (Hs (i_key it)) as Hb.
+      assert (E1 : Nat.ltb cap (bsize (cur s (i_key it)) + i_bytes it) = false) by (apply Nat.ltb_ge; lia).
+      assert (E2 : Nat.ltb cap2 (bsize (cur s (i_key it)) + i_bytes it) = false) by (apply Nat.ltb_ge; lia).
+      rewrite E1, E2. cbn [orb].
+      destruct (negb (same_dtype (cur s (i_key it)) it)).
+      * rewrite (IH (setb s (i_key it) (Some [it])) (B + i_bytes it)); [reflexivity| |lia|lia].
+        intros k. rewrite cur_setb. destruct (Nat.eqb (i_key it) k); [cbn; lia|]. specialize (Hs k). lia.
+      * rewrite (IH (setb s (i_key it) (Some (cur s (i_key it) ++ [it]))) (B + i_bytes it)); [reflexivity| |lia|lia].
+        intros k. rewrite cur_setb. destruct (Nat.eqb (i_key it) k); [rewrite bsize_app; lia|]. specialize (Hs k). lia.
+  - cbn [ops_bytes fold_right] in H1, H2. fold (ops_bytes t) in H1, H2.
+    cbn [bstep]. rewrite (IH _ B); [reflexivity| |lia|lia].
+    intros k. unfold cur. rewrite getb_flush. cbn. lia.
+Qed.
